@@ -232,3 +232,88 @@ fn verif_shim_arrayvec_matches_arrayvec() {
     println!("VERIF-SHIM arrayvec mismatches={}", bad);
     assert_eq!(bad, 0);
 }
+
+#[test]
+fn verif_shim_btree_matches_std() {
+    use crate::verif_shims::btree_map::{BTreeMap as M, Entry as ME};
+    use std::collections::btree_map::{BTreeMap as S, Entry as SE};
+    let mut bad = 0;
+    for seed in 0..300u64 {
+        let mut r = Lcg(seed * 32452843 + 13);
+        let mut m: M<u8, u16> = M::new();
+        let mut s: S<u8, u16> = S::new();
+        for _ in 0..40 {
+            let k = (r.next() % 9) as u8;
+            let v = (r.next() % 1000) as u16;
+            match r.next() % 8 {
+                0 | 1 => {
+                    if s.len() < 7 || s.contains_key(&k) {
+                        if m.insert(k, v) != s.insert(k, v) {
+                            bad += 1;
+                        }
+                    }
+                }
+                2 => {
+                    if m.remove(&k) != s.remove(&k) {
+                        bad += 1;
+                    }
+                }
+                3 => {
+                    if s.len() < 7 || s.contains_key(&k) {
+                        let a = *m.entry(k).or_insert(v);
+                        let b = *s.entry(k).or_insert(v);
+                        if a != b {
+                            bad += 1;
+                        }
+                    }
+                }
+                4 => {
+                    let a = match m.entry(k) {
+                        ME::Occupied(mut e) => {
+                            *e.get_mut() += 1;
+                            Some(*e.get())
+                        }
+                        ME::Vacant(_) => None,
+                    };
+                    let b = match s.entry(k) {
+                        SE::Occupied(mut e) => {
+                            *e.get_mut() += 1;
+                            Some(*e.get())
+                        }
+                        SE::Vacant(_) => None,
+                    };
+                    if a != b {
+                        bad += 1;
+                    }
+                }
+                5 => {
+                    for x in m.values_mut() {
+                        *x = x.wrapping_add(1);
+                    }
+                    for x in s.values_mut() {
+                        *x = x.wrapping_add(1);
+                    }
+                }
+                6 => {
+                    if m.keys().next() != s.keys().next() || m.get(&k) != s.get(&k) {
+                        bad += 1;
+                    }
+                }
+                _ => {
+                    let a: Vec<u16> = m.clone().into_values().filter(|x| x % 2 == 0).take(3).collect();
+                    let b: Vec<u16> = s.clone().into_values().filter(|x| x % 2 == 0).take(3).collect();
+                    if a != b {
+                        bad += 1;
+                    }
+                }
+            }
+            let a: Vec<_> = m.iter().map(|(k, v)| (*k, *v)).collect();
+            let b: Vec<_> = s.iter().map(|(k, v)| (*k, *v)).collect();
+            if a != b || m.len() != s.len() {
+                bad += 1;
+            }
+        }
+    }
+    println!("VERIF-SHIM btree mismatches={}", bad);
+    assert_eq!(bad, 0);
+}
